@@ -54,7 +54,9 @@ func specValid(ks *tinkpb.Keyset) bool {
 			return false
 		}
 		p := k.OutputPrefixType
-		ok = verifrt.And(ok, p == tinkpb.OutputPrefixType_TINK || p == tinkpb.OutputPrefixType_LEGACY || p == tinkpb.OutputPrefixType_RAW || p == tinkpb.OutputPrefixType_CRUNCHY)
+		// the five declared prefix types (WITH_ID_REQUIREMENT is what ML-DSA keys of variant
+		// NO_PREFIX_WITH_PREHASH_ID serialize to: a keyset the library writes must read back, C12)
+		ok = verifrt.And(ok, p == tinkpb.OutputPrefixType_TINK || p == tinkpb.OutputPrefixType_LEGACY || p == tinkpb.OutputPrefixType_RAW || p == tinkpb.OutputPrefixType_CRUNCHY || p == tinkpb.OutputPrefixType_WITH_ID_REQUIREMENT)
 		s := k.Status
 		ok = verifrt.And(ok, s == tinkpb.KeyStatusType_ENABLED || s == tinkpb.KeyStatusType_DISABLED || s == tinkpb.KeyStatusType_DESTROYED)
 		for j := 0; j < i; j++ {
@@ -77,7 +79,7 @@ func VerifH_validate() {
 	n := verifrt.Choice("n", valMax()+1)
 	ks := arbitraryKeyset(n)
 	err := Validate(ks)
-	verifrt.Assert((err == nil) == specValid(ks), "Validate accepts exactly: non-empty, all keys with key data, known enums, distinct ids, exactly one key with the primary id and it is ENABLED")
+	verifrt.Assert((err == nil) == specValid(ks), "Validate accepts exactly: non-empty, all keys with key data, declared enum values (5 prefix types, 3 statuses), distinct ids, exactly one key with the primary id and it is ENABLED")
 	verifrt.Assert(Validate(nil) != nil, "nil keyset rejected")
 	verifrt.Reach("end")
 }
